@@ -3,7 +3,7 @@
 From PowHsm Require Import Model.LedgerProtocol Proofs.C13.
 From PowHsm Require Import Gen.Src Proofs.SrcEquivLedger.
 From PowHsm Require Import Gen.SrcM Proofs.SrcEquivDongleM.
-From PowHsm Require Import Proofs.SrcEquivProtoM Proofs.SrcEquivStateM.
+From PowHsm Require Import Proofs.SrcEquivProtoM Proofs.SrcEquivStateM Proofs.SrcEquivHeartbeatM.
 Open Scope N_scope.
 
 (* getPubKey: whatever key bytes the device returns for the requested path are the reply's
@@ -131,3 +131,34 @@ Theorem C13_source_blockchain_state_handler_is_model :
   srcm_HSM2ProtocolLedger___blockchain_state init self request w =
   mres rtuple_pv (op_blockchain_state kind req w).
 Proof. exact srcm_blockchain_state_handler_ok. Qed.
+
+(* TIE BY TRANSLATION (device monad): the signer heartbeat command class of ledger/hsm2dongle_cmds (run over send),
+   as regenerated from the Python source text, runs on every world as the model's: the user-defined value decoded
+   from hex and sent, then signature, message, tweak and public key fetched in that order and reported hex-encoded
+   verbatim (the signature through the DER reader); a device error result becomes (False, code) *)
+Theorem C13_source_signer_heartbeat_is_model :
+  forall (self : pv) (ud_hex : str) (w : world),
+  srcm_HSM2Dongle__get_signer_heartbeat self (VStr ud_hex) w = mres hb_res (on_hex get_signer_heartbeat ud_hex w).
+Proof. exact srcm_get_signer_heartbeat_ok. Qed.
+
+Theorem C13_source_ui_heartbeat_is_model :
+  forall (self : pv) (ud_hex : str) (w : world),
+  srcm_HSM2Dongle__get_ui_heartbeat self (VStr ud_hex) w = mres hb_res (on_hex get_ui_heartbeat ud_hex w).
+Proof. exact srcm_get_ui_heartbeat_ok. Qed.
+
+(* the handlers that build the replies (the UI one with its mode dance), as translated, are the model's handlers *)
+Theorem C13_source_signer_heartbeat_handler_is_model :
+  forall (kind : dongle_kind) (init : pm pv) (self : pv) (req : obj) (ud_hex : str) (w : world),
+  init_ok kind init ->
+  jget (s "udValue") req = Some (JStr ud_hex) ->
+  srcm_HSM2ProtocolLedger___signer_heartbeat init self (of_obj req) w =
+  mres rtuple_pv (op_signer_heartbeat kind req w).
+Proof. exact srcm_signer_heartbeat_handler_ok. Qed.
+
+Theorem C13_source_ui_heartbeat_handler_is_model :
+  forall (kind : dongle_kind) (init : pm pv) (self : pv) (req : obj) (ud_hex : str) (w : world),
+  init_ok kind init ->
+  jget (s "udValue") req = Some (JStr ud_hex) ->
+  srcm_HSM2ProtocolLedger___ui_heartbeat init self (of_obj req) w =
+  mres rtuple_pv (op_ui_heartbeat kind req w).
+Proof. exact srcm_ui_heartbeat_handler_ok. Qed.
